@@ -266,7 +266,7 @@ type fileConcDesc struct {
 // call was invoked. Enabled with VERIF_C07_FILE_CONCURRENT=1 only (see props.d).
 func runFileConcurrent(c *vlib.Ctx, idx int64) {
 	r := c.SubRand(5_000_000 + idx)
-	d := &fileConcDesc{Idx: idx, Callers: 2 + r.Intn(3), Calls: 3 + r.Intn(6), Shared: r.Intn(2) == 0, Preset: int64(r.Intn(500))}
+	d := &fileConcDesc{Idx: idx, Callers: 2 + r.Intn(7), Calls: 10 + r.Intn(31), Shared: r.Intn(2) == 0, Preset: int64(r.Intn(500))}
 	id := c.Case(d)
 	dir, uri, err := fileScratch(c, "conc"+strconv.FormatInt(idx, 10))
 	if err != nil {
